@@ -408,6 +408,7 @@ func (s *socket) MaybeUpgrade(transport transports.Transport) {
 			// after the probe exchange)
 			socket_log.Debug("got upgrade packet - upgrading")
 			cleanup()
+			vhook.Yield("socket.upgrade.switching")
 			s.Transport().Discard()
 
 			s.upgraded.Store(true)
